@@ -226,6 +226,9 @@ func (s *GenSource) genEVMTx(w *World, op string) *txSpec {
 		if ex := sortedKeys(w.Dead); len(ex) > 0 && pct(t, 12, "callExContract") {
 			sp.to = unhx(pick(t, ex, "exContract"))
 		}
+		if pct(t, 8, "callPlainAccount") {
+			sp.to = pick(t, s.all, "callEOA").Addr
+		}
 		sp.payload = &ctypes.TrxPayloadContract{Data: s.genCalldata(w)}
 		if pct(t, 55, "callValue") {
 			sp.amount = pick(t, []*uint256.Int{u256(1), u256(1000), u256(uint64(1 + unif(t, 1_000_000, "callVal"))), rigo(1), s.amountFor(w, sp.from, "callAmtKind")}, "callAmt")
